@@ -18,20 +18,20 @@ VName == "V"
 Keys == Schemas \X (TNames \cup {VName})
 ColNames == {"A", "B", "C"}
 \* column types: declared type -> what the views must say
-DataType(t) == CASE t \in {"int", "num102"} -> "NUMBER" [] t \in {"vc", "vc5", "vc7"} -> "TEXT" [] t = "flt" -> "FLOAT" [] t = "bool" -> "BOOLEAN"
-DescType(t) == CASE t = "int" -> "NUMBER(38,0)" [] t = "num102" -> "NUMBER(10,2)" [] t = "vc" -> "VARCHAR(16777216)" [] t = "vc5" -> "VARCHAR(5)"
+DataType(t) == CASE t \in {"int", "num102", "num10"} -> "NUMBER" [] t \in {"vc", "vc5", "vc7"} -> "TEXT" [] t = "flt" -> "FLOAT" [] t = "bool" -> "BOOLEAN"
+DescType(t) == CASE t = "int" -> "NUMBER(38,0)" [] t = "num102" -> "NUMBER(10,2)" [] t = "num10" -> "NUMBER(10,0)" [] t = "vc" -> "VARCHAR(16777216)" [] t = "vc5" -> "VARCHAR(5)"
                  [] t = "vc7" -> "VARCHAR(7)" [] t = "flt" -> "FLOAT" [] t = "bool" -> "BOOLEAN"
 TLen(t) == CASE t = "vc" -> 16777216 [] t = "vc5" -> 5 [] t = "vc7" -> 7 [] OTHER -> -1
-Prec(t) == CASE t = "int" -> 38 [] t = "num102" -> 10 [] OTHER -> -1
-Scale(t) == CASE t = "int" -> 0 [] t = "num102" -> 2 [] OTHER -> -1
-TCode(t) == CASE t \in {"int", "num102"} -> 0 [] t \in {"vc", "vc5", "vc7"} -> 2 [] t = "flt" -> 1 [] t = "bool" -> 13
+Prec(t) == CASE t = "int" -> 38 [] t \in {"num102", "num10"} -> 10 [] OTHER -> -1
+Scale(t) == CASE t \in {"int", "num10"} -> 0 [] t = "num102" -> 2 [] OTHER -> -1
+TCode(t) == CASE t \in {"int", "num102", "num10"} -> 0 [] t \in {"vc", "vc5", "vc7"} -> 2 [] t = "flt" -> 1 [] t = "bool" -> 13
 IsText(t) == t \in {"vc", "vc5", "vc7"}
 Shape(sh) == CASE sh = "sh1" -> << <<"A", "vc5", FALSE>>, <<"B", "num102", TRUE>> >>
                [] sh = "sh2" -> << <<"A", "vc", FALSE>>, <<"B", "int", FALSE>>, <<"C", "flt", FALSE>> >>
-               [] sh = "sh3" -> << <<"A", "bool", FALSE>> >>
+               [] sh = "sh3" -> << <<"A", "bool", FALSE>>, <<"B", "num10", FALSE>> >>       \* num10: the one-parameter spelling NUMBER(10)
 NoObj == [e |-> FALSE, kind |-> "T", cols |-> <<>>, cmt |-> ""]
 NOROW == "<norow>"
-InitSt == [s2 |-> FALSE, obj |-> [k \in Keys |-> NoObj],
+InitSt == [tx |-> FALSE, s2 |-> FALSE, obj |-> [k \in Keys |-> NoObj],
            extc |-> [k \in Keys |-> NOROW],                                   \* as-built comment rows
            extl |-> [k \in Keys |-> [c \in ColNames |-> -2]]]                 \* as-built length rows (-2: no row)
 Exists(st, k) == st.obj[k].e /\ (k[1] = "S1" \/ st.s2)
@@ -118,6 +118,9 @@ Steps(st, op, D) ==
          IN {R(s2, OK)}
     [] op.k = "dropv" -> {R(Drop(st, op.key), OK)}
     [] op.k = "createsc" -> {R([st EXCEPT !.s2 = TRUE], OK)}
+    [] op.k = "begin" -> {R([st EXCEPT !.tx = TRUE], OK)}      \* DDL and reads between BEGIN and COMMIT, all on one connection:
+    [] op.k = "commit" -> {R([st EXCEPT !.tx = FALSE], OK)}    \* the views describe what that connection has made so far
+    [] op.k = "nopstmt" -> {R(st, OK)}                          \* SET / UNSET of a session variable: answered without the engine, changes nothing
     [] op.k = "touchdb" ->           \* CREATE DATABASE IF NOT EXISTS <this database> / a further connect to it: declares, drops, replaces nothing
          {R(st, OK)}
     [] op.k = "dropsc" ->            \* DROP SCHEMA S2 (cascades)
@@ -134,7 +137,7 @@ Ops(st) ==
   {o \in [k : {"createt"}, key : FreeKeys(st), sh : {"sh1", "sh2", "sh3"}, cmt : {"", "c1", "c2"}, mode : {"plain", "replace"}] :
        o.mode = "replace" \/ ~Exists(st, o.key)}
   \cup {o \in [k : {"ctas", "clone"}, key : FreeKeys(st), src : Tables(st)] : ~Exists(st, o.key) /\ (o.k = "clone" \/ \A j \in 1..Len(st.obj[o.src].cols) : ~st.obj[o.src].cols[j][3])}
-  \cup {o \in [k : {"addcol"}, key : Free(st), ty : {"vc7", "int"}] : ~HasCol(st.obj[o.key].cols, "C")}
+  \cup {o \in [k : {"addcol"}, key : Free(st), ty : {"vc7", "int", "num10"}] : ~HasCol(st.obj[o.key].cols, "C")}
   \cup {o \in [k : {"dropcol"}, key : Free(st)] : Len(st.obj[o.key].cols) >= 2}
   \cup {o \in [k : {"renamecol"}, key : Free(st)] : HasCol(st.obj[o.key].cols, "A") /\ ~HasCol(st.obj[o.key].cols, "C")}
   \cup {o \in [k : {"renamet"}, key : Free(st), to : TNames] : ~Exists(st, <<o.key[1], o.to>>)}
@@ -144,10 +147,13 @@ Ops(st) ==
   \cup [k : {"dropv"}, key : {k \in Keys : k[2] = VName /\ Exists(st, k)}]
   \cup (IF "S2" \in SchemasUsed THEN (IF st.s2 THEN [k : {"dropsc"}] ELSE [k : {"createsc"}]) ELSE {})
   \cup [k : {"touchdb"}, form : {"create_if_not_exists", "connect"}]
+  \cup [k : {"nopstmt"}, w : {"setvar", "unsetvar"}]
+  \cup (IF st.tx THEN [k : {"commit"}] ELSE [k : {"begin"}])
   \* via: the view is read by a session of this database ("own") or, database-qualified, by a session whose current database
   \* is another one ("other") - the same view of the same catalog
-  \cup (IF "ist" \in ReadsUsed THEN [k : {"ist", "isv"}, via : {"own", "other"}] \cup [k : {"showsc", "isd", "pk"}] ELSE {})
-  \cup (IF "obj" \in ReadsUsed THEN [k : {"isc"}, key : {k \in Keys : k[1] \in SchemasUsed}, via : {"own", "other"}]
+  \* (another session does not see what an open transaction has made: "other" is offered outside transactions)
+  \cup (IF "ist" \in ReadsUsed THEN [k : {"ist", "isv"}, via : IF st.tx THEN {"own"} ELSE {"own", "other"}] \cup [k : {"showsc", "isd", "pk"}] ELSE {})
+  \cup (IF "obj" \in ReadsUsed THEN [k : {"isc"}, key : {k \in Keys : k[1] \in SchemasUsed}, via : IF st.tx THEN {"own"} ELSE {"own", "other"}]
                                     \cup [k : {"desc", "star"}, key : {k \in Keys : k[1] \in SchemasUsed}] ELSE {})
   \cup (IF "show" \in ReadsUsed THEN [k : {"show"}, what : {"tables", "objects"}, scope : {"account", "database"} \cup SchemasUsed] ELSE {})
 
